@@ -33,7 +33,9 @@ MIN_COUNTERS = {"quick": {"big_bodies": 40, "mojibake_bodies": 60, "v1_files": 2
 
 SEPS = {"crlf": "\r\n", "lf": "\n", "cr": "\r", "none": "", "blank": " "}
 CODECS = {"ISO-8859-1": "latin_1", "1252": "cp1252", "NONE": "utf_8"}
-SPECIALS = {"latin_1": "éÿ¡©ü", "cp1252": "€’…œé", "utf_8": "€é汉😀’ÿ"}
+# utf_8: also text that is NOT in Unicode normal form C (decomposed accent, Angstrom / Ohm / Kelvin signs, conjoining jamo, a
+# compatibility ideograph, a musical symbol that NFC decomposes): "exactly the body text" means no normalisation either
+SPECIALS = {"latin_1": "éÿ¡©ü", "cp1252": "€’…œé", "utf_8": ["€", "é", "汉", "😀", "’", "ÿ", "e\u0301", "\u212b", "\u2126", "\u212a", "\u1100\u1161", "\uf900", "\U0001d15e", "a\u0323\u0307"]}
 UIDCHARS = "ABCXYZabcxyz0189_-"
 KEYWORD_UIDS = ["NEWFILEUID", "OLDFILEUID", "xNEWFILEUIDx", "OFXHEADER", "VERSION", "CHARSET", "ENCODING", "OFX", "xml", "100"]
 
@@ -103,6 +105,9 @@ POISON = [
     b"<?xml version=\"1.0\"?><?OFX OFXHEADER=\"200\" VERSION=\"220\" SECURITY=\"NONE\" OLDFILEUID=\"NONE\" NEWFILEUID=\"NONE\"?><OFX>\xf0\x9f\x98",
     b"OFXHEADER:100\r\nDATA:OFXSGML\r\nVERSION:1x2\r\n",
     b"OFXHEADER:100\nDATA:OFXSGML\nVERSION:102\nSECURITY:NONE\nENCODING:USASCII\nCHARSET:BOGUS\nCOMPRESSION:NONE\nOLDFILEUID:NONE\nNEWFILEUID:NONE\n<OFX>",
+    # ENCODING and CHARSET contradict each other (what this decodes to is UNSPECIFIED - what follows it is not)
+    b"OFXHEADER:100\r\nDATA:OFXSGML\r\nVERSION:102\r\nSECURITY:NONE\r\nENCODING:UNICODE\r\nCHARSET:1252\r\nCOMPRESSION:NONE\r\nOLDFILEUID:NONE\r\nNEWFILEUID:NONE\r\n\r\n<OFX><MEMO>caf\xe9</MEMO></OFX>",
+    b"OFXHEADER:100\r\nDATA:OFXSGML\r\nVERSION:102\r\nSECURITY:NONE\r\nENCODING:UNICODE\r\nCHARSET:ISO-8859-1\r\nCOMPRESSION:NONE\r\nOLDFILEUID:NONE\r\nNEWFILEUID:NONE\r\n\r\n<OFX><MEMO>caf\xc3\xa9</MEMO></OFX>",
     b"", b"\n\n\n\n\n\n\n\n\n\n", b"<?xml version='1.0'?><OFX></OFX>", b"\xff\xfe<\x00O\x00F\x00X\x00>\x00",
 ]
 
